@@ -390,7 +390,7 @@ func (p *Program) ruleCircleConvention(c *Check) {
 	}
 	before := len(c.Obs)
 	circlesBuilt := 0
-	p.runE8(c, &e8row{id: "geojson.parseJSONFeature#circle", fn: pf, opaque: map[*types.Func]bool{parse: true, newCircle: true},
+	p.runE8(c, &e8row{id: "geojson.parseJSONFeature#circle", fn: pf, opaque: map[*types.Func]bool{parse: true, newCircle: true}, maxBools: 16,
 		what: "the reader of the Circle convention uses the members the writer emits (properties.type/radius/radius_units), reads \"m\" unscaled and \"km\" times 1000, rejects other units, and centres the circle on the parsed point",
 		spec: func(a *e8assign, n *e8names, out *e8out) string {
 			// string atoms of one variable are mutually exclusive
